@@ -17,7 +17,14 @@ def is_tier(obj):
 
 
 def is_tg(obj):
-    return hasattr(obj, "_tierDict")
+    """a Textgrid whose tiers are ordinary interval/point tiers (a Klattgrid is a Textgrid subclass holding other tier kinds)"""
+    d = getattr(obj, "_tierDict", None)
+    if d is None:
+        return False
+    try:
+        return all(is_tier(t) for t in d.values())
+    except Exception:
+        return False
 
 
 def tier_snap(t):
